@@ -970,9 +970,21 @@ func (e *c12Env) collect() (*c12Result, error) {
 	return res, nil
 }
 
+// equal: same admissions, same play verdict, same pool, same state. The state pointer is compared through Played, not
+// as a block id: a block the prefix mined on the replica may order independent pool transactions differently (the
+// pool's topological sort follows map iteration), which changes its id and the id of every block built on it.
 func (a *c12Result) equal(b *c12Result) bool {
+	strip := func(m map[string]string) map[string]string {
+		out := make(map[string]string, len(m))
+		for k, v := range m {
+			if k != "pointer" {
+				out[k] = v
+			}
+		}
+		return out
+	}
 	return a.Admitted == b.Admitted && a.Played == b.Played && a.Pool == b.Pool && a.Pool2 == b.Pool2 &&
-		hx.DiffObs(a.Obs, b.Obs) == "" && hx.DiffObs(a.Obs2, b.Obs2) == ""
+		hx.DiffObs(strip(a.Obs), strip(b.Obs)) == "" && hx.DiffObs(strip(a.Obs2), strip(b.Obs2)) == ""
 }
 
 // c12SerialExplains: is there a one-at-a-time order of the same requests that leaves, on a replica
@@ -1009,6 +1021,8 @@ func c12SerialExplains(prefix []hx.NOp, reqs []c12Req, resub []int, got *c12Resu
 			res, err := e.collect()
 			if err == nil && res.equal(got) {
 				found = append([]int{}, acc...)
+			} else if os.Getenv("C12_DEBUG") != "" {
+				fmt.Fprintf(os.Stderr, "C12_DEBUG serial %v: err=%v admitted %q/%q played %s/%s pool %q/%q pool2 %q/%q obs %s obs2 %s\n", acc, err, res.Admitted, got.Admitted, res.Played, got.Played, res.Pool, got.Pool, res.Pool2, got.Pool2, hx.DiffObs(res.Obs, got.Obs), hx.DiffObs(res.Obs2, got.Obs2))
 			}
 			return
 		}
@@ -1403,6 +1417,11 @@ func (e *c12Env) modelOracle(out *c12Outcome) error {
 					legit[string(p[1].Txid)] = true
 					changed = true
 				}
+			}
+		}
+		if os.Getenv("C12_DEBUG") != "" {
+			for _, t := range all {
+				fmt.Fprintf(os.Stderr, "C12_DEBUG tx %s evicted=%v legit=%v check=%v\n", hx.Hex8(t.Txid), evicted(t), legit[string(t.Txid)], post.Check(t, h))
 			}
 		}
 		for _, t := range A {
